@@ -63,6 +63,7 @@ pub fn replay_case(case: &Value) -> Result<Vec<ctx::Viol>, String> {
         "c12" => props_pure::c12_replay(case),
         "arith" => props_pure::arith_replay(case),
         "msglen" => props_msglen::msglen_replay(case),
+        "talltree" => props_life::tall_tree_replay(case),
         e => Err(format!("unknown engine {}", e)),
     }
 }
